@@ -35,12 +35,12 @@ type Node struct {
 type FaultKind int
 
 const (
-	FNone        FaultKind = iota
-	FEnoent                // this call sees the path as missing
-	FEio                   // ReadFile fails with EIO
-	FTorn                  // ReadFile returns a prefix (Arg = bytes kept)
-	FStatSmall             // Stat reports size 0 (file grows between stat and read)
-	FDelAfter              // the file is deleted right after this call returned
+	FNone      FaultKind = iota
+	FEnoent              // this call sees the path as missing
+	FEio                 // ReadFile fails with EIO
+	FTorn                // ReadFile returns a prefix (Arg = bytes kept)
+	FStatSmall           // Stat reports size 0 (file grows between stat and read)
+	FDelAfter            // the file is deleted right after this call returned
 )
 
 type Fault struct {
@@ -54,8 +54,8 @@ type CallRec struct {
 	Task  int
 	Op    string
 	Path  string
-	Err   int   // ErrData code, 0 = ok
-	Size  int   // bytes returned / size reported
+	Err   int // ErrData code, 0 = ok
+	Size  int // bytes returned / size reported
 	Fault FaultKind
 	Names []string // glob: the raw match list returned
 }
@@ -70,10 +70,10 @@ type Disk struct {
 	// Fault, when set, decides a one-shot fault for call number idx.
 	Fault func(op, p string, idx int) Fault
 	// Trace, when non-nil, collects every call.
-	Trace    *[]CallRec
+	Trace     *[]CallRec
 	KeepTrace bool
-	Fired    map[string]int
-	Now      int64
+	Fired     map[string]int
+	Now       int64
 }
 
 func NewDisk() *Disk {
@@ -159,9 +159,9 @@ func (d *Disk) Paths() []string {
 var Active = NewDisk()
 
 const (
-	eNOENT = 1
-	eIO    = 2
-	eISDIR = 3
+	eNOENT  = 1
+	eIO     = 2
+	eISDIR  = 3
 	eNOTDIR = 4
 )
 
